@@ -224,7 +224,7 @@ def run_case(case, drv):
     ising = case["ising"]
     res.features += [f"n:{n}", f"style:{case['style']}", f"ising:{ising}", f"pattern:{case['pattern']}"]
     res.nontrivial = n >= 2 and any(M[i][j] != 0 for i in range(n) for j in range(n) if i != j)
-    C = qt.QUBOContainer(G.to_container(M, "csr"), float(const), case["pattern"])
+    C = qt.QUBOContainer(G.to_container(M, "csr", dtype=case.get("dtype")), float(const), case["pattern"])
     with tempfile.TemporaryDirectory(prefix="vh_c10_") as d:
         fn = os.path.join(d, "p.rudy" if ising else "p.qubo")
         try:
